@@ -104,6 +104,9 @@ def budget(draw, min_sources=1, max_sources=4, allow_broken=True, rules_kinds=('
             if good and draw(st.booleans()):
                 extra.append({'name': f'Supp {nm}', 'match': ['anygen', ['cmp', ['attr', 'r', 'amount'], [['==', ['num', good[0]['amount']]]]], 'r', ['name', nm], None],
                               'category': '', 'subcategory': '', 'merchant': None, 'priority': None, 'tags': [f'has-{nm}'], 'lets': [], 'fields': []})
+                # a column that is not one of the documented numeric ones reaches the rules as TEXT, also when its cells look like numbers (check / order numbers)
+                extra.append({'name': f'Supp text {nm}', 'match': ['anygen', ['cmp', ['attr', 'r', 'qty'], [['==', ['str', str(good[0]['qty'])]]]], 'r', ['name', nm], None],
+                              'category': '', 'subcategory': '', 'merchant': None, 'priority': None, 'tags': [f'qty-text-{nm}'], 'lets': [], 'fields': []})
         # a tag-only witness of the amount the rules see: it must be the amount AFTER the source's sign setting (the one the report shows)
         if draw(st.integers(0, 3)) > 0:
             extra.append({'name': 'Sign Witness', 'match': ['cmp', ['name', 'amount'], [['<', ['num', 0]]]], 'category': '', 'subcategory': '', 'merchant': None, 'priority': None,
